@@ -12,3 +12,4 @@ import Dippy.Props.C05
 #print axioms Dippy.C05.no_launcher_in_simple_safe
 #print axioms Dippy.C05.help_tuples
 #print axioms Dippy.C05.no_missing_tables
+#print axioms Dippy.C05.strip_is_bash_blank
